@@ -1,6 +1,5 @@
-(* C15: the regenerated path slice (Gen/GenPathSlice.v) is exactly the BACKWARD dependency closure
-   of the state variables (Spec/PathSliceSpec.v constrains_back), which is smaller than the
-   constraints on the state (constrains): a witness is given. *)
+(* C15: the regenerated path slice (Gen/GenPathSlice.v) is exactly the set of conditions that constrain
+   the state variables (Spec/PathSliceSpec.v constrains: dependency closure in either order). *)
 From Coq Require Import ZArith List Bool Lia PeanoNat Setoid.
 From HV Require Import Spec.PathSliceSpec Model.PathSliceModel Gen.GenPathSlice.
 Import ListNotations.
@@ -126,60 +125,245 @@ Proof.
   - rewrite p_build_snoc. apply inv_append. exact IH.
 Qed.
 
-Lemma cb_reach : forall vs S d i, constrains_back vs S d -> reachL vs d i -> constrains_back vs S i.
+(* ------------------------------------------------------------------ Path.slice: the worklist closure *)
+Lemma nmem_In : forall x l, nmem x l = true <-> In x l.
 Proof.
-  intros vs S d i Hd Hr. revert Hd. induction Hr as [k i Hik Hs | k c i Hck Hs Hr IH]; intros Hd.
-  - apply (cb_step vs S i k); assumption.
-  - apply IH. apply (cb_step vs S c k); assumption.
+  intros x l. unfold nmem. rewrite existsb_exists. split.
+  - intros [y [Hy E]]. apply Nat.eqb_eq in E. subst. exact Hy.
+  - intros H. exists x. split; [exact H | apply Nat.eqb_refl].
 Qed.
 
-Lemma cb_inv : forall vs S i, constrains_back vs S i ->
-  exists d, (d < length vs)%nat /\ share (cvars vs d) S /\ (i = d \/ reachL vs d i).
+(* the inner loop over the conditions of one variable *)
+Lemma visit_fold : forall (cv : nat -> list Z) (l : list nat) (sl : list nat) (wk : list Z),
+  let st := fold_left (slice_visit cv) l (sl, wk) in
+  (forall i, In i (fst st) <-> In i sl \/ In i l) /\
+  (forall v, In v wk -> In v (snd st)) /\
+  (forall i v, In i l -> In v (cv i) -> In i sl \/ In v (snd st)) /\
+  (forall v, In v (snd st) -> In v wk \/ exists i, In i l /\ In v (cv i)).
 Proof.
-  intros vs S i H. induction H as [i Hi Hs | i j Hij Hj [d [Hd [Hsd Hor]]] Hs].
-  - exists i. auto.
-  - exists d. split; [exact Hd | split; [exact Hsd |]]. right. destruct Hor as [E | Hr].
-    + subst j. apply rl_one; assumption.
-    + apply (reachL_snoc vs d j); assumption.
+  intros cv l. induction l as [|x l IH]; intros sl wk; cbn [fold_left].
+  - cbn. repeat split; intros; tauto.
+  - destruct (nmem x sl) eqn:M.
+    + assert (Es : slice_visit cv (sl, wk) x = (sl, wk)) by (unfold slice_visit; cbn [fst snd]; rewrite M; reflexivity).
+      rewrite Es. clear Es.
+      apply nmem_In in M. destruct (IH sl wk) as [H1 [H2 [H3 H4]]]. cbv zeta in *.
+      split; [| split; [| split]].
+      * intros i. rewrite H1. cbn [In]. split; [tauto |]. intros [H | [H | H]]; [tauto | subst; tauto | tauto].
+      * exact H2.
+      * intros i v [E | Hi] Hv; [subst; left; exact M | apply H3; assumption].
+      * intros v Hv. destruct (H4 v Hv) as [H | [i [Hi Hc]]]; [left; exact H | right; exists i; split; [right; exact Hi | exact Hc]].
+    + assert (Es : slice_visit cv (sl, wk) x = (x :: sl, rev (cv x) ++ wk)) by (unfold slice_visit; cbn [fst snd]; rewrite M; reflexivity).
+      rewrite Es. clear Es.
+      destruct (IH (x :: sl) (rev (cv x) ++ wk)) as [H1 [H2 [H3 H4]]]. cbv zeta in *.
+      split; [| split; [| split]].
+      * intros i. rewrite H1. cbn [In]. tauto.
+      * intros v Hv. apply H2. apply in_or_app. right. exact Hv.
+      * intros i v [E | Hi] Hv.
+        -- subst i. right. apply H2. apply in_or_app. left. apply in_rev in Hv. exact Hv.
+        -- destruct (H3 i v Hi Hv) as [[E | H] | H]; [| left; exact H | right; exact H].
+           subst i. right. apply H2. apply in_or_app. left. apply in_rev in Hv. exact Hv.
+      * intros v Hv. destruct (H4 v Hv) as [H | [i [Hi Hc]]].
+        -- apply in_app_or in H. destruct H as [H | H]; [| left; exact H].
+           right. exists x. split; [left; reflexivity | apply in_rev; exact H].
+        -- right. exists i. split; [right; exact Hi | exact Hc].
 Qed.
 
-(* Path.slice gives exactly the backward dependency closure of the state variables *)
-Lemma slice_exact : forall vs S i,
-  In i (p_slice (p_build vs) S) <-> constrains_back vs S i.
+Section Closure.
+  Variable vs : list (list Z).
+  Variable S : list Z.
+  Variable v2c : Z -> list nat.
+  Hypothesis Hv2c : forall v i, In i (v2c v) <-> ((i < length vs)%nat /\ In v (cvars vs i)).
+
+  (* a variable the closure may reach: a state variable, or a variable of a condition that constrains the state *)
+  Definition reach_var (v : Z) : Prop := In v S \/ exists j, constrains vs S j /\ In v (cvars vs j).
+
+  Definition LInv (sl : list nat) (seen wk : list Z) : Prop :=
+    (forall v, In v S -> In v seen \/ In v wk) /\
+    (forall v idx, In v seen -> In idx (v2c v) -> In idx sl) /\
+    (forall idx v, In idx sl -> In v (cvars vs idx) -> In v seen \/ In v wk) /\
+    (forall idx, In idx sl -> constrains vs S idx) /\
+    (forall v, In v seen \/ In v wk -> reach_var v).
+
+  Lemma reach_var_constrains : forall v idx, reach_var v -> In idx (v2c v) -> constrains vs S idx.
+  Proof.
+    intros v idx Hr Hi. apply Hv2c in Hi. destruct Hi as [Hlt Hin]. destruct Hr as [HS | [j [Hj Hvj]]].
+    - apply constrains_direct; [exact Hlt | exists v; auto].
+    - apply (constrains_step vs S idx j); [exact Hlt | exact Hj | exists v; auto].
+  Qed.
+
+  Lemma loop_correct : forall fuel sl seen wk r,
+    LInv sl seen wk ->
+    slice_loop fuel v2c (fun idx => nth idx vs []) sl seen wk = Some r ->
+    forall i, In i r <-> constrains vs S i.
+  Proof.
+    induction fuel as [|f IH]; intros sl seen wk r HI E; [discriminate |].
+    cbn [slice_loop] in E. destruct wk as [|var rest].
+    - (* the worklist is empty: sliced is closed *)
+      injection E as E. subst r. destruct HI as [Ha [Hb [Hc [Hd _]]]]. intros i. split; [apply Hd |].
+      intros Hcon. induction Hcon as [i Hlt [v [Hvi HvS]] | i j Hlt Hj IHj [v [Hvi Hvj]]].
+      + destruct (Ha v HvS) as [Hs | []]. apply (Hb v i Hs). apply Hv2c. auto.
+      + destruct (Hc j v IHj Hvj) as [Hs | []]. apply (Hb v i Hs). apply Hv2c. auto.
+    - destruct (vmem var seen) eqn:M.
+      + (* already seen *)
+        apply vmem_In in M. apply (IH sl seen rest r); [| exact E].
+        destruct HI as [Ha [Hb [Hc [Hd He]]]]. repeat split.
+        * intros v Hv. destruct (Ha v Hv) as [H | [H | H]]; [left; exact H | subst; left; exact M | right; exact H].
+        * exact Hb.
+        * intros idx v Hi Hv. destruct (Hc idx v Hi Hv) as [H | [H | H]]; [left; exact H | subst; left; exact M | right; exact H].
+        * exact Hd.
+        * intros v [H | H]; apply He; [left; exact H | right; right; exact H].
+      + (* a new variable: its conditions are sliced, their variables pushed *)
+        pose proof (visit_fold (fun idx => nth idx vs []) (v2c var) sl rest) as Hvf. cbv zeta in Hvf.
+        destruct Hvf as [H1 [H2 [H3 H4]]].
+        eapply IH; [| exact E].
+        destruct HI as [Ha [Hb [Hc [Hd He]]]].
+        assert (Hrv : reach_var var) by (apply He; right; left; reflexivity).
+        repeat split.
+        * intros v Hv. destruct (Ha v Hv) as [H | [H | H]]; [left; right; exact H | subst; left; left; reflexivity | right; apply H2; exact H].
+        * intros v idx [Ev | Hs] Hi.
+          -- subst v. apply H1. right. exact Hi.
+          -- apply H1. left. apply (Hb v idx Hs Hi).
+        * intros idx v Hi Hv. apply H1 in Hi. destruct Hi as [Hi | Hi].
+          -- destruct (Hc idx v Hi Hv) as [H | [H | H]]; [left; right; exact H | subst; left; left; reflexivity | right; apply H2; exact H].
+          -- destruct (H3 idx v Hi Hv) as [Hsl | Hw]; [| right; exact Hw].
+             destruct (Hc idx v Hsl Hv) as [H | [H | H]]; [left; right; exact H | subst; left; left; reflexivity | right; apply H2; exact H].
+        * intros idx Hi. apply H1 in Hi. destruct Hi as [Hi | Hi]; [apply Hd; exact Hi | apply (reach_var_constrains var); assumption].
+        * intros v [[Ev | Hs] | Hw].
+          -- subst v. exact Hrv.
+          -- apply He. left. exact Hs.
+          -- destruct (H4 v Hw) as [H | [i [Hi Hci]]]; [apply He; right; right; exact H |].
+             right. exists i. split; [apply (reach_var_constrains var); assumption | exact Hci].
+  Qed.
+End Closure.
+
+(* Path.slice gives exactly the conditions that constrain the state variables (dependency in either
+   order), whenever the loop ends within the fuel *)
+Lemma slice_closure : forall vs S fuel r,
+  p_slice (p_build vs) vs S fuel = Some r -> forall i, In i r <-> constrains vs S i.
 Proof.
-  intros vs S i. destruct (inv_build vs) as [Hn Hv Hr]. unfold p_slice. rewrite get_related_in. split.
-  - intros [[v [HvS Hi]] | [c [[v [HvS Hc]] Hi]]].
-    + apply Hv in Hi. destruct Hi as [Hi Hin]. apply cb_direct; [exact Hi | exists v; auto].
-    + apply Hv in Hc. destruct Hc as [Hc Hin].
-      apply (cb_reach vs S c i); [apply cb_direct; [exact Hc | exists v; auto] |].
-      apply Hr; [exact Hc | exact Hi].
-  - intros H. apply cb_inv in H. destruct H as [d [Hd [[v [H1 H2]] Hor]]].
-    destruct Hor as [E | Hrd].
-    + subst i. left. exists v. split; [exact H2 |]. apply Hv. auto.
-    + right. exists d. split; [exists v; split; [exact H2 | apply Hv; auto] |].
-      apply Hr; [exact Hd | exact Hrd].
+  intros vs S fuel r E. destruct (inv_build vs) as [Hn Hv Hr]. unfold p_slice in E.
+  apply (loop_correct vs S (p_v2c (p_build vs)) Hv fuel [] [] (rev S) r); [| exact E].
+  repeat split.
+  - intros v Hv'. right. apply in_rev in Hv'. exact Hv'.
+  - intros v idx [].
+  - intros idx v [].
+  - intros idx [].
+  - intros v [[] | Hw]. left. apply in_rev. exact Hw.
 Qed.
 
-(* every condition that mentions a state variable is in the slice ... *)
-Lemma slice_direct : forall vs S i, (i < length vs)%nat -> share (cvars vs i) S -> In i (p_slice (p_build vs) S).
-Proof. intros vs S i Hi Hs. apply slice_exact. apply cb_direct; assumption. Qed.
+(* ------------------------------------------------------------------ the loop ends *)
+Section Termination.
+  Variable n : nat.
+  Variable cv : nat -> list Z.
+  Variable v2c : Z -> list nat.
+  Hypothesis Hrange : forall v i, In i (v2c v) -> (i < n)%nat.
 
-(* ... and so is every EARLIER condition sharing a variable with a condition of the slice *)
-Lemma slice_backward : forall vs S i j, In j (p_slice (p_build vs) S) -> (i < j)%nat ->
-  share (cvars vs i) (cvars vs j) -> In i (p_slice (p_build vs) S).
-Proof. intros vs S i j Hj Hij Hs. apply slice_exact. apply (cb_step vs S i j); [exact Hij | apply slice_exact; exact Hj | exact Hs]. Qed.
+  (* the variables still to be pushed: those of the conditions not yet sliced *)
+  Definition pending (L : list nat) (sl : list nat) : nat :=
+    list_sum (map (fun i => if nmem i sl then O else length (cv i)) L).
 
-(* ... but not a LATER one: x == v; v > 9 with the state variable x *)
-Lemma slice_forward_refuted :
-  constrains ForwardInst.vs ForwardInst.S 1 /\
-  p_slice (p_build ForwardInst.vs) ForwardInst.S = [O] /\
-  ~ In 1%nat (p_slice (p_build ForwardInst.vs) ForwardInst.S).
+  Lemma pending_cons : forall y L sl,
+    pending (y :: L) sl = ((if nmem y sl then O else length (cv y)) + pending L sl)%nat.
+  Proof. reflexivity. Qed.
+
+  Lemma nmem_cons_other : forall y x sl, y <> x -> nmem y (x :: sl) = nmem y sl.
+  Proof.
+    intros y x sl H. unfold nmem. cbn [existsb]. destruct (Nat.eqb_spec y x); [contradiction | reflexivity].
+  Qed.
+
+  Lemma pending_notin : forall L sl x, ~ In x L -> pending L (x :: sl) = pending L sl.
+  Proof.
+    induction L as [|y L IH]; intros sl x Hn; [reflexivity |]. rewrite !pending_cons.
+    rewrite IH by (intros H; apply Hn; right; exact H).
+    rewrite nmem_cons_other; [reflexivity |]. intros E. apply Hn. left. exact E.
+  Qed.
+
+  Lemma pending_add : forall L sl x, NoDup L -> In x L -> nmem x sl = false ->
+    (pending L (x :: sl) + length (cv x) = pending L sl)%nat.
+  Proof.
+    induction L as [|y L IH]; intros sl x Hnd Hin Hm; [destruct Hin |].
+    inversion Hnd as [| ? ? Hny HndL]; subst. rewrite !pending_cons.
+    destruct Hin as [E | Hin].
+    - subst y. rewrite (pending_notin L sl x Hny). rewrite Hm.
+      assert (Hx : nmem x (x :: sl) = true) by (unfold nmem; cbn [existsb]; rewrite Nat.eqb_refl; reflexivity).
+      rewrite Hx. lia.
+    - specialize (IH sl x HndL Hin Hm).
+      assert (Hyx : y <> x) by (intros E; subst; contradiction).
+      rewrite (nmem_cons_other y x sl Hyx). lia.
+  Qed.
+
+  Definition measure (sl : list nat) (wk : list Z) : nat := (length wk + pending (seq 0 n) sl)%nat.
+
+  Lemma visit_measure : forall l sl wk, (forall i, In i l -> (i < n)%nat) ->
+    let st := fold_left (slice_visit cv) l (sl, wk) in measure (fst st) (snd st) = measure sl wk.
+  Proof.
+    induction l as [|x l IH]; intros sl wk Hl; [reflexivity |]. cbn [fold_left]. cbv zeta.
+    assert (Hx : (x < n)%nat) by (apply Hl; left; reflexivity).
+    assert (Hl' : forall i, In i l -> (i < n)%nat) by (intros i Hi; apply Hl; right; exact Hi).
+    destruct (nmem x sl) eqn:M.
+    - assert (Es : slice_visit cv (sl, wk) x = (sl, wk)) by (unfold slice_visit; cbn [fst snd]; rewrite M; reflexivity).
+      rewrite Es. apply (IH sl wk Hl').
+    - assert (Es : slice_visit cv (sl, wk) x = (x :: sl, rev (cv x) ++ wk)) by (unfold slice_visit; cbn [fst snd]; rewrite M; reflexivity).
+      rewrite Es. rewrite (IH (x :: sl) (rev (cv x) ++ wk) Hl'). unfold measure.
+      rewrite app_length, rev_length.
+      pose proof (pending_add (seq 0 n) sl x (seq_NoDup n 0) (proj2 (in_seq n 0 x) (conj (Nat.le_0_l x) Hx)) M). lia.
+  Qed.
+
+  Lemma loop_terminates : forall fuel sl seen wk,
+    (measure sl wk < fuel)%nat -> slice_loop fuel v2c cv sl seen wk <> None.
+  Proof.
+    induction fuel as [|f IH]; intros sl seen wk Hm; [lia |]. cbn [slice_loop].
+    destruct wk as [|var rest]; [discriminate |].
+    destruct (vmem var seen).
+    - apply IH. unfold measure in *. cbn [length] in Hm. lia.
+    - apply IH. rewrite (visit_measure (v2c var) sl rest (Hrange var)).
+      unfold measure in *. cbn [length] in Hm. lia.
+  Qed.
+End Termination.
+
+Lemma pending_nil_bound : forall vs L, (forall i, In i L -> True) ->
+  pending (fun idx => nth idx vs []) L [] = list_sum (map (fun i => length (nth i vs [])) L).
+Proof. intros vs L _. unfold pending. reflexivity. Qed.
+
+Lemma map_nth_seq : forall (l : list (list Z)) k,
+  map (fun i => length (nth (i - k) l [])) (seq k (length l)) = map (@length Z) l.
 Proof.
-  split; [| split].
-  - apply (constrains_step _ _ 1%nat 0%nat).
-    + cbn. lia.
-    + apply constrains_direct; [cbn; lia |]. exists 1. cbn. auto.
-    + exists 2. cbn. auto.
-  - reflexivity.
-  - intros [H | []]. discriminate.
+  induction l as [|x l IH]; intros k; [reflexivity |]. cbn [length seq map]. rewrite Nat.sub_diag. cbn [nth].
+  f_equal. rewrite <- (IH (Datatypes.S k)). apply map_ext_in. intros i Hi. apply in_seq in Hi.
+  replace (i - k)%nat with (Datatypes.S (i - Datatypes.S k)) by lia. reflexivity.
+Qed.
+
+Lemma sum_nth_seq : forall (vs : list (list Z)),
+  list_sum (map (fun i => length (nth i vs [])) (seq 0 (length vs))) = list_sum (map (@length Z) vs).
+Proof.
+  intros vs. rewrite <- (map_nth_seq vs 0). f_equal. apply map_ext. intros i. rewrite Nat.sub_0_r. reflexivity.
+Qed.
+
+Lemma slice_terminates : forall vs S, p_slice (p_build vs) vs S (slice_fuel vs S) <> None.
+Proof.
+  intros vs S. destruct (inv_build vs) as [Hn Hv Hr]. unfold p_slice.
+  apply (loop_terminates (length vs)).
+  - intros v i Hi. apply Hv in Hi. tauto.
+  - unfold measure, slice_fuel. rewrite rev_length, pending_nil_bound by auto. rewrite sum_nth_seq. lia.
+Qed.
+
+(* Path.slice, unconditionally: with that fuel the result exists and is exactly the closure *)
+Lemma slice_closure_total : forall vs S,
+  exists r, p_slice (p_build vs) vs S (slice_fuel vs S) = Some r /\ forall i, In i r <-> constrains vs S i.
+Proof.
+  intros vs S. destruct (p_slice (p_build vs) vs S (slice_fuel vs S)) as [r |] eqn:E.
+  - exists r. split; [reflexivity | exact (slice_closure vs S _ r E)].
+  - exfalso. exact (slice_terminates vs S E).
+Qed.
+
+(* x == v; v > 9 with the state variable x: both conditions are sliced now *)
+Lemma slice_forward_example :
+  p_slice (p_build ForwardInst.vs) ForwardInst.vs ForwardInst.S 10 = Some [1%nat; 0%nat] /\
+  constrains ForwardInst.vs ForwardInst.S 1.
+Proof.
+  split; [reflexivity |].
+  apply (constrains_step _ _ 1%nat 0%nat).
+  - cbn. lia.
+  - apply constrains_direct; [cbn; lia |]. exists 1. cbn. auto.
+  - exists 2. cbn. auto.
 Qed.
